@@ -136,6 +136,9 @@ class DULServiceProvider(Thread):
         pdu_cls, event = _PDU_TYPES[b[0:1]]
         pdu = pdu_cls()
         pdu.decode(b)
+        # A PDU that cannot be converted to a primitive (i.e. reserved or invalid
+        #   field values) is invalid and must not reach the state machine actions
+        pdu.to_primitive()
 
         evt.trigger(self.assoc, evt.EVT_PDU_RECV, {"pdu": pdu})
 
